@@ -57,7 +57,8 @@ fn write_workspace(root: &Path) {
             put(d.join("src/main.rs"), MAIN_RS);
             for x in extra { put(d.join(format!("src/bin/{x}.rs")), &format!("fn main() {{ println!(\"{x}\"); }}\n")); }
         } else {
-            put(d.join("package.toml"), &format!("[buildpack]\nuri = \".\"\n{}", b.deps.iter().map(|u| format!("[[dependencies]]\nuri = \"{u}\"\n")).collect::<String>()));
+            // demo/b declares a non-default platform: everything but the dependency URIs is carried over
+            put(d.join("package.toml"), &format!("[buildpack]\nuri = \".\"\n{}{}", b.deps.iter().map(|u| format!("[[dependencies]]\nuri = \"{u}\"\n")).collect::<String>(), if b.id == "demo/b" { "[platform]\nos = \"windows\"\n" } else { "" }));
         }
     }
     // a buildpack that is neither libcnb.rs nor composite: never packaged
@@ -139,6 +140,9 @@ pub fn package(thorough: bool) -> Report {
                     let uri = v.get("buildpack").and_then(|x| x.get("uri")).and_then(|x| x.as_str()).unwrap_or("<none>").to_string();
                     let deps: Vec<String> = v.get("dependencies").and_then(|x| x.as_array()).map(|a| a.iter().map(|x| x.get("uri").and_then(|u| u.as_str()).unwrap_or("<no uri>").to_string()).collect()).unwrap_or_default();
                     let want_deps: Vec<String> = b.deps.iter().map(|u| if let Some(x) = u.strip_prefix("libcnb:") { out_dir(x).display().to_string() } else if !u.contains(':') && !u.starts_with('/') { lex(&root.join(b.dir), u) } else { u.to_string() }).collect();
+                    let os = v.get("platform").and_then(|x| x.get("os")).and_then(|x| x.as_str()).unwrap_or("linux").to_string();
+                    let want_os = if b.id == "demo/b" { "windows" } else { "linux" };
+                    if os != want_os { r.violation("package_toml", "package.toml: the declared platform is carried over (default linux)", format!("{input}; buildpack {id}"), want_os.into(), os); }
                     if uri != "." || deps != want_deps { r.violation("package_toml", "package.toml: uri \".\", libcnb: references replaced by the dependency's output directory, relative paths absolute, other URIs verbatim, in order", format!("{input}; buildpack {id}"), format!("uri . deps {want_deps:?}"), format!("uri {uri} deps {deps:?}")); }
                 }
                 _ => r.violation("package_toml", "the output directory holds a package.toml that is valid TOML", format!("{input}; buildpack {id}"), "package.toml".into(), "missing or unreadable".into()),
